@@ -810,6 +810,9 @@ static char c_sock_udp_echo (char **av) { int s = ai (av, 1), d = ai (av, 2), e 
 	put (d, T_SADDR, from); return 'S'; }
 static char c_sock_close (char **av) { int d = ai (av, 1), e = ai (av, 2); LIB (); NEED (d, T_SOCK); ERRARG (e, d);
 	pboolean ok = p_socket_close (S[d].p, e_in (e)); e_out (e); if (!ok) return 'F'; S[d].b = 3; return 'S'; }
+/* shutdown of both directions: the descriptor stays open (and is closed later by close / free, exactly once) */
+static char c_sock_shutdown (char **av) { int d = ai (av, 1); LIB (); NEED (d, T_SOCK);
+	p_socket_shutdown (S[d].p, TRUE, TRUE, NULL); return 'S'; }
 /* every I/O entry point on a socket that was closed: each must refuse with "not available"; only the first finds the error pointer empty */
 static char c_sock_io_closed (char **av) { int d = ai (av, 1), w = ai (av, 2), e = ai (av, 3); LIB (); NEED (d, T_SOCK); ERRARG (e, d); if (S[d].b != 3 || w < 0 || w > 6) return '-';
 	char buf[8]; int refused = 0;
@@ -1122,7 +1125,7 @@ static const struct { const char *name; char (*fn) (char **); const char *may; }
 	{ "sa_new", c_sa_new }, { "sa_any", c_sa_any }, { "sa_loop", c_sa_loop }, { "sa_native", c_sa_native }, { "sa_addr", c_sa_addr }, { "sa_free", c_sa_free },
 	{ "sock_new", c_sock_new }, { "sock_bad", c_sock_bad }, { "sock_listen", c_sock_listen, "1SF" }, { "sock_connect", c_sock_connect },
 	{ "sock_connect_refused", c_sock_connect_refused }, { "sock_connect_timeout", c_sock_connect_timeout }, { "sock_accept", c_sock_accept }, { "sock_local", c_sock_local }, { "sock_remote", c_sock_remote },
-	{ "sock_udp_echo", c_sock_udp_echo }, { "sock_close", c_sock_close, "1SF" }, { "sock_free", c_sock_free }, { "sock_io_closed", c_sock_io_closed }, { "sock_from_fd", c_sock_from_fd },
+	{ "sock_udp_echo", c_sock_udp_echo }, { "sock_close", c_sock_close, "1SF" }, { "sock_free", c_sock_free }, { "sock_io_closed", c_sock_io_closed }, { "sock_shutdown", c_sock_shutdown, "1S" }, { "sock_from_fd", c_sock_from_fd },
 	{ "sem_new", c_sem_new, "!names" }, { "sem_cycle", c_sem_cycle }, { "sem_own", c_sem_own }, { "sem_free", c_sem_free, "!names" },
 	{ "shm_new", c_shm_new }, { "shm_own", c_shm_own }, { "shm_cycle", c_shm_cycle, "!shm" }, { "shm_free", c_shm_free, "!names" },
 	{ "shmbuf_new", c_shmbuf_new }, { "shmbuf_rw", c_shmbuf_rw, "!shm" }, { "shmbuf_fill", c_shmbuf_fill, "!shm" }, { "shmbuf_own", c_shmbuf_own }, { "shmbuf_free", c_shmbuf_free, "!names" },
